@@ -278,6 +278,53 @@ func checkC20(c *Ctx) {
 			}
 		}
 	}
+	// the same rules in LARGE switches and scripts: a duplicate whose two occurrences are both late in a
+	// switch of 12 / 20 / 40 cases (or early and late), and a user label equal to each generated label of a
+	// script with dozens of chunks
+	for _, n := range []int{12, 20, 40} {
+		for _, pair := range [][2]int{{n - 3, n - 1}, {1, n - 1}, {n / 2, n/2 + 1}, {-1, -1}} {
+			lines := []string{"script Big {", "    switch (var(VAR_S)) {"}
+			vals := []string{}
+			dupLine := 0
+			for k := 0; k < n; k++ {
+				v := fmt.Sprint(100 + k)
+				if k == pair[1] {
+					v = fmt.Sprint(100 + pair[0])
+					dupLine = len(lines) + 1
+				}
+				vals = append(vals, v)
+				lines = append(lines, "    case "+v+":", fmt.Sprintf("        c%d", k))
+			}
+			lines = append(lines, "    }", "}")
+			if dupLine == 0 {
+				dupLine = 1
+			}
+			addRule(fmt.Sprintf("bigdup%d.%d", n, pair[1]), "dupcase", lines, dupLine, dupLine, map[string]interface{}{"casevals": vals})
+		}
+	}
+	for _, n := range []int{4, 12, 25} {
+		var body []string
+		for k := 0; k < n; k++ {
+			body = append(body, fmt.Sprintf("    if (flag(F%d)) {", k), fmt.Sprintf("        t%d", k), "    }", fmt.Sprintf("    b%d", k))
+		}
+		host := append(append([]string{"script Big {"}, body...), "}")
+		clean := Compile(strings.Join(host, "\n")+"\n", Opts{Optimize: n%2 == 0})
+		gen := []string{"Big"}
+		if clean.Err == nil {
+			for _, ln := range ParseAsm(clean.Out).Lines {
+				if ln["k"] == "label" && strings.HasPrefix(ln["name"].(string), "Big_") {
+					gen = append(gen, ln["name"].(string))
+				}
+			}
+		}
+		for v, name := range append(append([]string{}, gen...), fmt.Sprintf("Big_%d", 4*n+7), "Fine") {
+			at := 1 + 4*((v*7)%n) // before one of the ifs
+			lines := append([]string{}, host[:at]...)
+			lines = append(lines, "    "+name+":")
+			lines = append(lines, host[at:]...)
+			addRule(fmt.Sprintf("biglab%d.%d", n, v), "nameclash", lines, at+1, at+1, map[string]interface{}{"name": name, "generated": gen})
+		}
+	}
 	var cli []CLICase
 	for i, body := range []string{"script S {\n    foo\n    break\n}\n", "script S {\n    while (flag(A)) {\n        continue\n        foo\n    }\n}\n",
 		"const A = 1\n\nconst A = 2\nscript S {\n}\n", "script S {\n    switch (var(V)) {\n    case 1: a\n    case 1: b\n    }\n}\n",
